@@ -22,6 +22,7 @@
 #include "allocfault.h"
 #include <errno.h>
 #include <new>
+#include <type_traits>
 #include <iostream>
 #include <mutex>
 #include <unistd.h>
@@ -1056,6 +1057,71 @@ void aes_decrypt_block(const uint8_t key[16], uint8_t block[16], int off)
   decryaes d(key);
   d.runaes_128bit(b.p);
   b.out(block);
+}
+template <class H>
+static std::vector<bytes> aes_handles_t(int nslots, const std::vector<AesHOp> &ops, bool *copyable)
+{
+  constexpr bool can_copy = std::is_copy_constructible<H>::value && std::is_copy_assignable<H>::value;
+  if (copyable)
+    *copyable = can_copy;
+  std::vector<H *> slot((size_t)nslots, nullptr);
+  std::vector<bytes> res;
+  for (const AesHOp &o : ops)
+  {
+    if (o.a < 0 || o.a >= nslots)
+      continue;
+    H *&A = slot[(size_t)o.a];
+    H *B = (o.b >= 0 && o.b < nslots) ? slot[(size_t)o.b] : nullptr;
+    switch (o.op)
+    {
+    case 0:
+      if (A)
+      {
+        A->~H();
+        new (A) H(o.key.data()); // same storage, another key
+      }
+      else
+        A = new H(o.key.data());
+      break;
+    case 1:
+      if constexpr (can_copy)
+        if (B && B != A)
+        {
+          H *n = new H(*B);
+          delete A;
+          A = n;
+        }
+      break;
+    case 2:
+      if constexpr (can_copy)
+        if (A && B)
+          *A = *B;
+      break;
+    case 3:
+      delete A;
+      A = nullptr;
+      break;
+    case 4:
+      if (A)
+      {
+        OffBlock b(o.block.data(), 0);
+        A->runaes_128bit(b.p);
+        bytes out(16);
+        b.out(out.data());
+        res.push_back(out);
+      }
+      else
+        res.push_back(bytes());
+      break;
+    }
+  }
+  for (H *h : slot)
+    delete h;
+  return res;
+}
+std::vector<bytes> aes_handles(bool enc, int nslots, const std::vector<AesHOp> &ops, bool *copyable)
+{
+  return enc ? aes_handles_t<encryaes>(nslots, ops, copyable) : aes_handles_t<decryaes>(nslots, ops, copyable);
 }
 const uint8_t *tab_sbox() { return s_box; }
 const uint8_t *tab_rsbox() { return rs_box; }
